@@ -75,7 +75,7 @@ def runtime_obj(cwd, name="rt.o"):
         tmpd = f"{cache}.{os.getpid()}.d"
         os.makedirs(tmpd, exist_ok=True)
         try:
-            tools.cc(RUNTIME_C, "rt.o", flags=RT_FLAGS, cwd=tmpd)
+            _retrying(tools.cc, RUNTIME_C, "rt.o", flags=RT_FLAGS, cwd=tmpd)
             os.replace(os.path.join(tmpd, "rt.o"), cache)
         finally:
             shutil.rmtree(tmpd, ignore_errors=True)
@@ -129,8 +129,31 @@ def file_asm(spec):
     return "\n".join(out) + "\n"
 
 
+def _retrying(fn, *a, **kw):
+    """Tool steps (as, ar, gcc) only fail here when the shared machine is grossly overloaded
+    (60 s timeout -> SIGKILL); try up to three times before giving up as Inconclusive."""
+    for attempt in range(3):
+        try:
+            return fn(*a, **kw)
+        except Inconclusive:
+            if attempt == 2:
+                raise
+
+
 def build_obj(spec, out, cwd):
-    return tools.asm(file_asm(spec), out, cwd=cwd)
+    return _retrying(tools.asm, file_asm(spec), out, cwd=cwd)
+
+
+def ar(archive, members, cwd, thin=False):
+    path = os.path.join(cwd, archive)
+    for attempt in range(3):
+        try:
+            if os.path.exists(path):
+                os.unlink(path)
+            return tools.ar(archive, members, cwd=cwd, thin=thin)
+        except Inconclusive:
+            if attempt == 2:
+                raise
 
 
 def build_shared(spec, out, cwd, soname=None, extra=()):
